@@ -1,9 +1,713 @@
-// wifi family — nothing modelled yet (stub)
+// Wifi family: RadioTap (parse/serialize; setters are property C11's), the Dot11 class family, RC4EAPOL, RSNEAPOL.
+// Field names, order and values mirror lean/TinsModel/Wire/Wifi/{Dot11,Tagged,Eapol,RadioTap}.lean.
 #pragma once
 #include "wire_iface.h"
+#include <tins/rsn_information.h>
+#include <stdexcept>
+#include <initializer_list>
 namespace wire {
-inline bool wifi_dump(const PDU&, std::string&) { return false; }
-inline PDU* wifi_mk(const std::string&, const std::vector<std::string>&) { return 0; }
-inline bool wifi_apply(PDU&, const std::vector<std::string>&) { return false; }
-inline bool wifi_sweep(const PDU&, std::string&) { return false; }
+
+inline bool wifi_hex(const std::string& s, size_t n, bytes& out) {
+    return vh::parse_hex(s, out) && out.size() == n;
+}
+
+inline unsigned long wifi_num(const std::string& s) { return std::stoul(s); }
+
+inline std::vector<std::string> wifi_split(const std::string& s, char sep) {
+    std::vector<std::string> out;
+    if (s == "-") return out;
+    std::string cur;
+    for (size_t i = 0; i < s.size(); ++i) {
+        if (s[i] == sep) { out.push_back(cur); cur.clear(); }
+        else cur.push_back(s[i]);
+    }
+    out.push_back(cur);
+    return out;
+}
+
+inline unsigned wifi_caps(const Dot11ManagementFrame::capability_information& c) {
+    return unsigned(c.ess()) | unsigned(c.ibss()) << 1 | unsigned(c.cf_poll()) << 2 | unsigned(c.cf_poll_req()) << 3 |
+           unsigned(c.privacy()) << 4 | unsigned(c.short_preamble()) << 5 | unsigned(c.pbcc()) << 6 |
+           unsigned(c.channel_agility()) << 7 | unsigned(c.spectrum_mgmt()) << 8 | unsigned(c.qos()) << 9 |
+           unsigned(c.sst()) << 10 | unsigned(c.apsd()) << 11 | unsigned(c.radio_measurement()) << 12 |
+           unsigned(c.dsss_ofdm()) << 13 | unsigned(c.delayed_block_ack()) << 14 | unsigned(c.immediate_block_ack()) << 15;
+}
+
+inline void wifi_set_cap(Dot11ManagementFrame::capability_information& c, unsigned bit, bool v) {
+    switch (bit) {
+        case 0: c.ess(v); break; case 1: c.ibss(v); break; case 2: c.cf_poll(v); break; case 3: c.cf_poll_req(v); break;
+        case 4: c.privacy(v); break; case 5: c.short_preamble(v); break; case 6: c.pbcc(v); break;
+        case 7: c.channel_agility(v); break; case 8: c.spectrum_mgmt(v); break; case 9: c.qos(v); break;
+        case 10: c.sst(v); break; case 11: c.apsd(v); break; case 12: c.radio_measurement(v); break;
+        case 13: c.dsss_ofdm(v); break; case 14: c.delayed_block_ack(v); break; case 15: c.immediate_block_ack(v); break;
+    }
+}
+
+inline void dot11_base_dump(FieldDump& f, const Dot11& d) {
+    f.num("protocol", d.protocol()).num("type", d.type()).num("subtype", d.subtype()).num("to_ds", d.to_ds())
+     .num("from_ds", d.from_ds()).num("more_frag", d.more_frag()).num("retry", d.retry()).num("power_mgmt", d.power_mgmt())
+     .num("more_data", d.more_data()).num("wep", d.wep()).num("order", d.order()).num("duration_id", d.duration_id())
+     .str("addr1", hex_of(d.addr1()));
+}
+
+template <typename T>
+inline void dot11_ext_dump(FieldDump& f, const T& m) {
+    f.str("addr2", hex_of(m.addr2())).str("addr3", hex_of(m.addr3())).num("frag_num", m.frag_num())
+     .num("seq_num", m.seq_num()).str("addr4", (m.to_ds() && m.from_ds()) ? hex_of(m.addr4()) : std::string("-"));
+}
+
+inline std::string dot11_opts(const Dot11& d) {
+    std::ostringstream o;
+    bool first = true;
+    for (Dot11::options_type::const_iterator it = d.options().begin(); it != d.options().end(); ++it) {
+        if (!first) o << ",";
+        first = false;
+        o << unsigned(it->option()) << ":" << it->length_field() << ":" << vh::to_hex(it->data_ptr(), it->data_size());
+    }
+    return first ? "-" : o.str();
+}
+
+template <typename T>
+inline void dot11_bar_dump(FieldDump& f, const T& b) {
+    f.num("bar_control", b.bar_control()).num("start_sequence", b.start_sequence()).num("fragment_number", b.fragment_number());
+}
+
+// ---- typed getters of Dot11ManagementFrame as canonical text (mirrors Tagged.typedStr in the Lean model) ----
+inline std::string wifi_us(std::initializer_list<unsigned long long> xs) {
+    std::ostringstream o; bool f = true;
+    for (unsigned long long x : xs) { if (!f) o << "_"; f = false; o << x; }
+    return o.str();
+}
+inline std::string wifi_pairs_str(const std::vector<std::pair<uint8_t, uint8_t> >& ps) {
+    if (ps.empty()) return "-";
+    std::ostringstream o;
+    for (size_t i = 0; i < ps.size(); ++i) { if (i) o << ","; o << unsigned(ps[i].first) << "." << unsigned(ps[i].second); }
+    return o.str();
+}
+template <typename V>
+inline std::string wifi_list_str(const V& xs, const char* sep) {
+    if (xs.empty()) return "-";
+    std::ostringstream o;
+    for (size_t i = 0; i < xs.size(); ++i) { if (i) o << sep; o << (unsigned long long)xs[i]; }
+    return o.str();
+}
+inline std::string wifi_rates_str(const Dot11ManagementFrame::rates_type& r) {
+    std::vector<unsigned> v;
+    for (size_t i = 0; i < r.size(); ++i) v.push_back(unsigned(r[i] * 2));
+    return wifi_list_str(v, ",");
+}
+template <typename F>
+inline void wifi_typed_item(std::string& out, const char* name, F f) {
+    std::string v;
+    try { v = f(); }
+    catch (const option_not_found&) { return; }
+    catch (const std::exception& e) { v = "!" + vh::exc_name(e); }
+    if (!out.empty()) out += "|";
+    out += std::string(name) + ":" + v;
+}
+inline std::string wifi_typed(const Dot11ManagementFrame& m) {
+    typedef Dot11ManagementFrame M;
+    std::string out;
+    wifi_typed_item(out, "rsn_information", [&] {
+        RSNInformation r = m.rsn_information();
+        std::vector<uint32_t> pw(r.pairwise_cyphers().begin(), r.pairwise_cyphers().end()), ak(r.akm_cyphers().begin(), r.akm_cyphers().end());
+        return wifi_us({r.version(), uint32_t(r.group_suite())}) + "_" + wifi_list_str(pw, "+") + "_" + wifi_list_str(ak, "+") + "_" + wifi_us({r.capabilities()});
+    });
+    wifi_typed_item(out, "ssid", [&] { std::string s = m.ssid(); return vh::to_hex((const uint8_t*)s.data(), s.size()); });
+    wifi_typed_item(out, "supported_rates", [&] { return wifi_rates_str(m.supported_rates()); });
+    wifi_typed_item(out, "extended_supported_rates", [&] { return wifi_rates_str(m.extended_supported_rates()); });
+    wifi_typed_item(out, "qos_capability", [&] { return wifi_us({m.qos_capability()}); });
+    wifi_typed_item(out, "power_capability", [&] { std::pair<uint8_t, uint8_t> p = m.power_capability(); return wifi_us({p.first, p.second}); });
+    wifi_typed_item(out, "supported_channels", [&] { return wifi_pairs_str(m.supported_channels()); });
+    wifi_typed_item(out, "request_information", [&] { M::request_info_type v = m.request_information(); return vh::to_hex(v); });
+    wifi_typed_item(out, "fh_parameter_set", [&] { M::fh_params_set v = m.fh_parameter_set(); return wifi_us({v.dwell_time, v.hop_set, v.hop_pattern, v.hop_index}); });
+    wifi_typed_item(out, "ds_parameter_set", [&] { return wifi_us({m.ds_parameter_set()}); });
+    wifi_typed_item(out, "cf_parameter_set", [&] { M::cf_params_set v = m.cf_parameter_set(); return wifi_us({v.cfp_count, v.cfp_period, v.cfp_max_duration, v.cfp_dur_remaining}); });
+    wifi_typed_item(out, "ibss_parameter_set", [&] { return wifi_us({m.ibss_parameter_set()}); });
+    wifi_typed_item(out, "ibss_dfs", [&] { M::ibss_dfs_params v = m.ibss_dfs(); return hex_of(v.dfs_owner) + "_" + wifi_us({v.recovery_interval}) + "_" + wifi_pairs_str(v.channel_map); });
+    wifi_typed_item(out, "country", [&] {
+        M::country_params v = m.country();
+        std::ostringstream o;
+        o << vh::to_hex((const uint8_t*)v.country.data(), v.country.size()) << "_";
+        if (v.first_channel.empty()) o << "-";
+        for (size_t i = 0; i < v.first_channel.size(); ++i) {
+            if (i) o << ",";
+            o << unsigned(v.first_channel[i]) << "." << unsigned(v.number_channels.at(i)) << "." << unsigned(v.max_transmit_power.at(i));
+        }
+        return o.str();
+    });
+    wifi_typed_item(out, "fh_parameters", [&] { std::pair<uint8_t, uint8_t> p = m.fh_parameters(); return wifi_us({p.first, p.second}); });
+    wifi_typed_item(out, "fh_pattern_table", [&] { M::fh_pattern_type v = m.fh_pattern_table(); return wifi_us({v.flag, v.number_of_sets, v.modulus, v.offset}) + "_" + vh::to_hex(v.random_table); });
+    wifi_typed_item(out, "power_constraint", [&] { return wifi_us({m.power_constraint()}); });
+    wifi_typed_item(out, "channel_switch", [&] { M::channel_switch_type v = m.channel_switch(); return wifi_us({v.switch_mode, v.new_channel, v.switch_count}); });
+    wifi_typed_item(out, "quiet", [&] { M::quiet_type v = m.quiet(); return wifi_us({v.quiet_count, v.quiet_period, v.quiet_duration, v.quiet_offset}); });
+    wifi_typed_item(out, "tpc_report", [&] { std::pair<uint8_t, uint8_t> p = m.tpc_report(); return wifi_us({p.first, p.second}); });
+    wifi_typed_item(out, "erp_information", [&] { return wifi_us({m.erp_information()}); });
+    wifi_typed_item(out, "bss_load", [&] { M::bss_load_type v = m.bss_load(); return wifi_us({v.station_count, v.channel_utilization, v.available_capacity}); });
+    wifi_typed_item(out, "tim", [&] { M::tim_type v = m.tim(); return wifi_us({v.dtim_count, v.dtim_period, v.bitmap_control}) + "_" + vh::to_hex(v.partial_virtual_bitmap); });
+    wifi_typed_item(out, "challenge_text", [&] { std::string s = m.challenge_text(); return vh::to_hex((const uint8_t*)s.data(), s.size()); });
+    wifi_typed_item(out, "vendor_specific", [&] { M::vendor_specific_type v = m.vendor_specific(); return vh::to_hex(v.oui.begin(), 3) + "_" + vh::to_hex(v.data); });
+    return out.empty() ? "-" : out;
+}
+
+inline bool wifi_dump(const PDU& p, std::string& out) {
+    FieldDump f;
+    switch (p.pdu_type()) {
+        case PDU::DOT11: case PDU::DOT11_CONTROL: case PDU::DOT11_ACK:
+            dot11_base_dump(f, static_cast<const Dot11&>(p));
+            break;
+        case PDU::DOT11_RTS: case PDU::DOT11_PS_POLL: case PDU::DOT11_CF_END: case PDU::DOT11_END_CF_ACK: {
+            const Dot11ControlTA& t = static_cast<const Dot11ControlTA&>(p);
+            dot11_base_dump(f, t);
+            f.str("target_addr", hex_of(t.target_addr()));
+            break;
+        }
+        case PDU::DOT11_BLOCK_ACK_REQ: {
+            const Dot11BlockAckRequest& t = static_cast<const Dot11BlockAckRequest&>(p);
+            dot11_base_dump(f, t);
+            f.str("target_addr", hex_of(t.target_addr()));
+            dot11_bar_dump(f, t);
+            break;
+        }
+        case PDU::DOT11_BLOCK_ACK: {
+            const Dot11BlockAck& t = static_cast<const Dot11BlockAck&>(p);
+            dot11_base_dump(f, t);
+            f.str("target_addr", hex_of(t.target_addr()));
+            dot11_bar_dump(f, t);
+            f.hex("bitmap", t.bitmap(), Dot11BlockAck::bitmap_size);
+            break;
+        }
+        case PDU::DOT11_DATA: {
+            const Dot11Data& t = static_cast<const Dot11Data&>(p);
+            dot11_base_dump(f, t);
+            dot11_ext_dump(f, t);
+            break;
+        }
+        case PDU::DOT11_QOS_DATA: {
+            const Dot11QoSData& t = static_cast<const Dot11QoSData&>(p);
+            dot11_base_dump(f, t);
+            dot11_ext_dump(f, t);
+            f.num("qos_control", t.qos_control());
+            break;
+        }
+        case PDU::DOT11_BEACON: {
+            const Dot11Beacon& t = static_cast<const Dot11Beacon&>(p);
+            dot11_base_dump(f, t); dot11_ext_dump(f, t);
+            f.num("timestamp", t.timestamp()).num("interval", t.interval()).num("capabilities", wifi_caps(t.capabilities()));
+            f.str("opts", dot11_opts(t)).str("typed", wifi_typed(t));
+            break;
+        }
+        case PDU::DOT11_PROBE_RESP: {
+            const Dot11ProbeResponse& t = static_cast<const Dot11ProbeResponse&>(p);
+            dot11_base_dump(f, t); dot11_ext_dump(f, t);
+            f.num("timestamp", t.timestamp()).num("interval", t.interval()).num("capabilities", wifi_caps(t.capabilities()));
+            f.str("opts", dot11_opts(t)).str("typed", wifi_typed(t));
+            break;
+        }
+        case PDU::DOT11_PROBE_REQ: {
+            const Dot11ProbeRequest& t = static_cast<const Dot11ProbeRequest&>(p);
+            dot11_base_dump(f, t); dot11_ext_dump(f, t);
+            f.str("opts", dot11_opts(t)).str("typed", wifi_typed(t));
+            break;
+        }
+        case PDU::DOT11_DIASSOC: {
+            const Dot11Disassoc& t = static_cast<const Dot11Disassoc&>(p);
+            dot11_base_dump(f, t); dot11_ext_dump(f, t);
+            f.num("reason_code", t.reason_code()).str("opts", dot11_opts(t)).str("typed", wifi_typed(t));
+            break;
+        }
+        case PDU::DOT11_DEAUTH: {
+            const Dot11Deauthentication& t = static_cast<const Dot11Deauthentication&>(p);
+            dot11_base_dump(f, t); dot11_ext_dump(f, t);
+            f.num("reason_code", t.reason_code()).str("opts", dot11_opts(t)).str("typed", wifi_typed(t));
+            break;
+        }
+        case PDU::DOT11_ASSOC_REQ: {
+            const Dot11AssocRequest& t = static_cast<const Dot11AssocRequest&>(p);
+            dot11_base_dump(f, t); dot11_ext_dump(f, t);
+            f.num("capabilities", wifi_caps(t.capabilities())).num("listen_interval", t.listen_interval()).str("opts", dot11_opts(t)).str("typed", wifi_typed(t));
+            break;
+        }
+        case PDU::DOT11_ASSOC_RESP: {
+            const Dot11AssocResponse& t = static_cast<const Dot11AssocResponse&>(p);
+            dot11_base_dump(f, t); dot11_ext_dump(f, t);
+            f.num("capabilities", wifi_caps(t.capabilities())).num("status_code", t.status_code()).num("aid", t.aid())
+             .str("opts", dot11_opts(t)).str("typed", wifi_typed(t));
+            break;
+        }
+        case PDU::DOT11_REASSOC_RESP: {
+            const Dot11ReAssocResponse& t = static_cast<const Dot11ReAssocResponse&>(p);
+            dot11_base_dump(f, t); dot11_ext_dump(f, t);
+            f.num("capabilities", wifi_caps(t.capabilities())).num("status_code", t.status_code()).num("aid", t.aid())
+             .str("opts", dot11_opts(t)).str("typed", wifi_typed(t));
+            break;
+        }
+        case PDU::DOT11_REASSOC_REQ: {
+            const Dot11ReAssocRequest& t = static_cast<const Dot11ReAssocRequest&>(p);
+            dot11_base_dump(f, t); dot11_ext_dump(f, t);
+            f.num("capabilities", wifi_caps(t.capabilities())).num("listen_interval", t.listen_interval())
+             .str("current_ap", hex_of(t.current_ap())).str("opts", dot11_opts(t)).str("typed", wifi_typed(t));
+            break;
+        }
+        case PDU::DOT11_AUTH: {
+            const Dot11Authentication& t = static_cast<const Dot11Authentication&>(p);
+            dot11_base_dump(f, t); dot11_ext_dump(f, t);
+            f.num("auth_algorithm", t.auth_algorithm()).num("auth_seq_number", t.auth_seq_number())
+             .num("status_code", t.status_code()).str("opts", dot11_opts(t)).str("typed", wifi_typed(t));
+            break;
+        }
+        case PDU::RC4EAPOL: {
+            const RC4EAPOL& e = static_cast<const RC4EAPOL&>(p);
+            f.num("version", e.version()).num("packet_type", e.packet_type()).num("~length", e.length()).num("type", e.type())
+             .num("~key_length", e.key_length()).num("replay_counter", e.replay_counter())
+             .hex("key_iv", e.key_iv(), RC4EAPOL::key_iv_size).num("key_flag", e.key_flag()).num("key_index", e.key_index())
+             .hex("key_sign", e.key_sign(), RC4EAPOL::key_sign_size).str("key", vh::to_hex(e.key()));
+            break;
+        }
+        case PDU::RSNEAPOL: {
+            const RSNEAPOL& e = static_cast<const RSNEAPOL&>(p);
+            f.num("version", e.version()).num("packet_type", e.packet_type()).num("~length", e.length()).num("type", e.type())
+             .num("key_mic", e.key_mic()).num("secure", e.secure()).num("error", e.error()).num("request", e.request())
+             .num("encrypted", e.encrypted()).num("key_descriptor", e.key_descriptor()).num("key_t", e.key_t())
+             .num("key_index", e.key_index()).num("install", e.install()).num("key_ack", e.key_ack())
+             .num("key_length", e.key_length()).num("replay_counter", e.replay_counter())
+             .hex("nonce", e.nonce(), RSNEAPOL::nonce_size).hex("key_iv", e.key_iv(), RSNEAPOL::key_iv_size)
+             .hex("rsc", e.rsc(), RSNEAPOL::rsc_size).hex("id", e.id(), RSNEAPOL::id_size).hex("mic", e.mic(), RSNEAPOL::mic_size)
+             .num("~wpa_length", e.wpa_length()).str("key", vh::to_hex(e.key()));
+            break;
+        }
+        case PDU::RADIOTAP: {
+            const RadioTap& r = static_cast<const RadioTap&>(p);
+            f.num("version", r.version()).num("padding", r.padding()).num("~length", r.length())
+             .str("options", vh::to_hex(r.options_payload()));
+            break;
+        }
+        default:
+            return false;
+    }
+    out = f.done();
+    return true;
+}
+
+inline bool wifi_mac(const std::vector<std::string>& a, size_t i, HWAddress<6>& out) {
+    bytes b;
+    if (i >= a.size()) { out = HWAddress<6>(); return true; }
+    if (!wifi_hex(a[i], 6, b)) return false;
+    out = HWAddress<6>(b.data());
+    return true;
+}
+
+inline PDU* wifi_mk(const std::string& cls, const std::vector<std::string>& a) {
+    HWAddress<6> x, y;
+    if (cls == "RC4EAPOL") return new RC4EAPOL();
+    if (cls == "RSNEAPOL") return new RSNEAPOL();
+    if (cls.compare(0, 5, "Dot11") != 0) return 0;
+    if (!wifi_mac(a, 0, x) || !wifi_mac(a, 1, y)) return 0;
+    if (cls == "Dot11") return new Dot11(x);
+    if (cls == "Dot11Control") return new Dot11Control(x);
+    if (cls == "Dot11Ack") return new Dot11Ack(x);
+#define W(C) if (cls == #C) return new C(x, y);
+    W(Dot11RTS) W(Dot11PSPoll) W(Dot11CFEnd) W(Dot11EndCFAck) W(Dot11BlockAckRequest) W(Dot11BlockAck) W(Dot11Data)
+    W(Dot11QoSData) W(Dot11Beacon) W(Dot11ProbeResponse) W(Dot11ProbeRequest) W(Dot11Disassoc) W(Dot11Deauthentication)
+    W(Dot11AssocRequest) W(Dot11AssocResponse) W(Dot11ReAssocResponse) W(Dot11Authentication) W(Dot11ReAssocRequest)
+#undef W
+    return 0;
+}
+
+template <typename T>
+inline bool dot11_ext_apply(T& m, const std::vector<std::string>& op) {
+    bytes b;
+    if (op.size() != 2) return false;
+    if (op[0] == "addr2" && wifi_hex(op[1], 6, b)) { m.addr2(HWAddress<6>(b.data())); return true; }
+    if (op[0] == "addr3" && wifi_hex(op[1], 6, b)) { m.addr3(HWAddress<6>(b.data())); return true; }
+    if (op[0] == "addr4" && wifi_hex(op[1], 6, b)) { m.addr4(HWAddress<6>(b.data())); return true; }
+    if (op[0] == "frag_num") { m.frag_num(small_uint<4>(uint8_t(wifi_num(op[1])))); return true; }
+    if (op[0] == "seq_num") { m.seq_num(small_uint<12>(uint16_t(wifi_num(op[1])))); return true; }
+    return false;
+}
+
+template <typename T>
+inline bool dot11_bar_apply(T& m, const std::vector<std::string>& op) {
+    if (op.size() != 2) return false;
+    if (op[0] == "bar_control") { m.bar_control(small_uint<4>(uint8_t(wifi_num(op[1])))); return true; }
+    if (op[0] == "start_sequence") { m.start_sequence(small_uint<12>(uint16_t(wifi_num(op[1])))); return true; }
+    if (op[0] == "fragment_number") { m.fragment_number(small_uint<4>(uint8_t(wifi_num(op[1])))); return true; }
+    return false;
+}
+
+inline std::vector<std::pair<uint8_t, uint8_t> > wifi_pairs(const std::string& s) {
+    std::vector<std::pair<uint8_t, uint8_t> > out;
+    std::vector<std::string> items = wifi_split(s, ',');
+    for (size_t i = 0; i < items.size(); ++i) {
+        std::vector<std::string> ab = wifi_split(items[i], ':');
+        out.push_back(std::make_pair(uint8_t(wifi_num(ab.at(0))), uint8_t(wifi_num(ab.at(1)))));
+    }
+    return out;
+}
+
+inline Dot11ManagementFrame::rates_type wifi_rates(const std::string& s) {
+    Dot11ManagementFrame::rates_type out;
+    std::vector<std::string> items = wifi_split(s, ',');
+    for (size_t i = 0; i < items.size(); ++i) out.push_back(float(wifi_num(items[i])) / 2);
+    return out;
+}
+
+// typed tagged-option setters of Dot11ManagementFrame
+inline bool dot11_typed_apply(Dot11ManagementFrame& m, const std::vector<std::string>& op) {
+    const std::string& n = op[0];
+    bytes b, c;
+    size_t k = op.size();
+    if (n == "ssid" && k == 2 && vh::parse_hex(op[1], b)) { m.ssid(std::string(b.begin(), b.end())); return true; }
+    if (n == "supported_rates" && k == 2) { m.supported_rates(wifi_rates(op[1])); return true; }
+    if (n == "extended_supported_rates" && k == 2) { m.extended_supported_rates(wifi_rates(op[1])); return true; }
+    if (n == "qos_capability" && k == 2) { m.qos_capability(uint8_t(wifi_num(op[1]))); return true; }
+    if (n == "power_capability" && k == 3) { m.power_capability(uint8_t(wifi_num(op[1])), uint8_t(wifi_num(op[2]))); return true; }
+    if (n == "supported_channels" && k == 2) { m.supported_channels(wifi_pairs(op[1])); return true; }
+    if (n == "edca_parameter_set" && k == 5) {
+        m.edca_parameter_set(uint32_t(wifi_num(op[1])), uint32_t(wifi_num(op[2])), uint32_t(wifi_num(op[3])), uint32_t(wifi_num(op[4])));
+        return true;
+    }
+    if (n == "request_information" && k == 2 && vh::parse_hex(op[1], b)) { m.request_information(b); return true; }
+    if (n == "fh_parameter_set" && k == 5) {
+        m.fh_parameter_set(Dot11ManagementFrame::fh_params_set(uint16_t(wifi_num(op[1])), uint8_t(wifi_num(op[2])),
+                                                                uint8_t(wifi_num(op[3])), uint8_t(wifi_num(op[4]))));
+        return true;
+    }
+    if (n == "ds_parameter_set" && k == 2) { m.ds_parameter_set(uint8_t(wifi_num(op[1]))); return true; }
+    if (n == "cf_parameter_set" && k == 5) {
+        m.cf_parameter_set(Dot11ManagementFrame::cf_params_set(uint8_t(wifi_num(op[1])), uint8_t(wifi_num(op[2])),
+                                                                uint16_t(wifi_num(op[3])), uint16_t(wifi_num(op[4]))));
+        return true;
+    }
+    if (n == "ibss_parameter_set" && k == 2) { m.ibss_parameter_set(uint16_t(wifi_num(op[1]))); return true; }
+    if (n == "ibss_dfs" && k == 4 && wifi_hex(op[1], 6, b)) {
+        m.ibss_dfs(Dot11ManagementFrame::ibss_dfs_params(HWAddress<6>(b.data()), uint8_t(wifi_num(op[2])), wifi_pairs(op[3])));
+        return true;
+    }
+    if (n == "country" && k == 3 && wifi_hex(op[1], 3, b)) {
+        std::vector<uint8_t> f, nc, mp;
+        std::vector<std::string> items = wifi_split(op[2], ',');
+        for (size_t i = 0; i < items.size(); ++i) {
+            std::vector<std::string> t = wifi_split(items[i], ':');
+            f.push_back(uint8_t(wifi_num(t.at(0)))); nc.push_back(uint8_t(wifi_num(t.at(1)))); mp.push_back(uint8_t(wifi_num(t.at(2))));
+        }
+        m.country(Dot11ManagementFrame::country_params(std::string(b.begin(), b.end()), f, nc, mp));
+        return true;
+    }
+    if (n == "fh_parameters" && k == 3) { m.fh_parameters(uint8_t(wifi_num(op[1])), uint8_t(wifi_num(op[2]))); return true; }
+    if (n == "fh_pattern_table" && k == 6 && vh::parse_hex(op[5], b)) {
+        m.fh_pattern_table(Dot11ManagementFrame::fh_pattern_type(uint8_t(wifi_num(op[1])), uint8_t(wifi_num(op[2])),
+                                                                  uint8_t(wifi_num(op[3])), uint8_t(wifi_num(op[4])), b));
+        return true;
+    }
+    if (n == "power_constraint" && k == 2) { m.power_constraint(uint8_t(wifi_num(op[1]))); return true; }
+    if (n == "channel_switch" && k == 4) {
+        m.channel_switch(Dot11ManagementFrame::channel_switch_type(uint8_t(wifi_num(op[1])), uint8_t(wifi_num(op[2])), uint8_t(wifi_num(op[3]))));
+        return true;
+    }
+    if (n == "quiet" && k == 5) {
+        m.quiet(Dot11ManagementFrame::quiet_type(uint8_t(wifi_num(op[1])), uint8_t(wifi_num(op[2])), uint16_t(wifi_num(op[3])),
+                                                  uint16_t(wifi_num(op[4]))));
+        return true;
+    }
+    if (n == "tpc_report" && k == 3) { m.tpc_report(uint8_t(wifi_num(op[1])), uint8_t(wifi_num(op[2]))); return true; }
+    if (n == "erp_information" && k == 2) { m.erp_information(uint8_t(wifi_num(op[1]))); return true; }
+    if (n == "bss_load" && k == 4) {
+        m.bss_load(Dot11ManagementFrame::bss_load_type(uint16_t(wifi_num(op[1])), uint8_t(wifi_num(op[2])), uint16_t(wifi_num(op[3]))));
+        return true;
+    }
+    if (n == "tim" && k == 5 && vh::parse_hex(op[4], b)) {
+        m.tim(Dot11ManagementFrame::tim_type(uint8_t(wifi_num(op[1])), uint8_t(wifi_num(op[2])), uint8_t(wifi_num(op[3])), b));
+        return true;
+    }
+    if (n == "challenge_text" && k == 2 && vh::parse_hex(op[1], b)) { m.challenge_text(std::string(b.begin(), b.end())); return true; }
+    if (n == "vendor_specific" && k == 3 && wifi_hex(op[1], 3, b) && vh::parse_hex(op[2], c)) {
+        m.vendor_specific(Dot11ManagementFrame::vendor_specific_type(HWAddress<3>(b.data()), c));
+        return true;
+    }
+    if (n == "rsn_information" && k == 6) {
+        RSNInformation info;
+        info.version(uint16_t(wifi_num(op[1])));
+        info.group_suite(RSNInformation::CypherSuites(uint32_t(wifi_num(op[2]))));
+        std::vector<std::string> pw = wifi_split(op[3], ','), ak = wifi_split(op[4], ',');
+        for (size_t i = 0; i < pw.size(); ++i) info.add_pairwise_cypher(RSNInformation::CypherSuites(uint32_t(wifi_num(pw[i]))));
+        for (size_t i = 0; i < ak.size(); ++i) info.add_akm_cypher(RSNInformation::AKMSuites(uint32_t(wifi_num(ak[i]))));
+        info.capabilities(uint16_t(wifi_num(op[5])));
+        m.rsn_information(info);
+        return true;
+    }
+    return false;
+}
+
+template <typename T>
+inline bool dot11_cap_apply(T& t, const std::vector<std::string>& op) {
+    if (op.size() == 3 && op[0] == "cap" && wifi_num(op[1]) < 16) {
+        wifi_set_cap(t.capabilities(), unsigned(wifi_num(op[1])), wifi_num(op[2]) != 0);
+        return true;
+    }
+    return false;
+}
+
+inline bool dot11_body_apply(Dot11& d, const std::vector<std::string>& op) {
+    bytes b;
+    const std::string& n = op[0];
+    bool two = op.size() == 2;
+    switch (d.pdu_type()) {
+        case PDU::DOT11_QOS_DATA:
+            if (two && n == "qos_control") { static_cast<Dot11QoSData&>(d).qos_control(uint16_t(wifi_num(op[1]))); return true; }
+            return false;
+        case PDU::DOT11_BEACON: {
+            Dot11Beacon& t = static_cast<Dot11Beacon&>(d);
+            if (two && n == "timestamp") { t.timestamp(std::stoull(op[1])); return true; }
+            if (two && n == "interval") { t.interval(uint16_t(wifi_num(op[1]))); return true; }
+            return dot11_cap_apply(t, op);
+        }
+        case PDU::DOT11_PROBE_RESP: {
+            Dot11ProbeResponse& t = static_cast<Dot11ProbeResponse&>(d);
+            if (two && n == "timestamp") { t.timestamp(std::stoull(op[1])); return true; }
+            if (two && n == "interval") { t.interval(uint16_t(wifi_num(op[1]))); return true; }
+            return dot11_cap_apply(t, op);
+        }
+        case PDU::DOT11_DIASSOC:
+            if (two && n == "reason_code") { static_cast<Dot11Disassoc&>(d).reason_code(uint16_t(wifi_num(op[1]))); return true; }
+            return false;
+        case PDU::DOT11_DEAUTH:
+            if (two && n == "reason_code") { static_cast<Dot11Deauthentication&>(d).reason_code(uint16_t(wifi_num(op[1]))); return true; }
+            return false;
+        case PDU::DOT11_ASSOC_REQ: {
+            Dot11AssocRequest& t = static_cast<Dot11AssocRequest&>(d);
+            if (two && n == "listen_interval") { t.listen_interval(uint16_t(wifi_num(op[1]))); return true; }
+            return dot11_cap_apply(t, op);
+        }
+        case PDU::DOT11_REASSOC_REQ: {
+            Dot11ReAssocRequest& t = static_cast<Dot11ReAssocRequest&>(d);
+            if (two && n == "listen_interval") { t.listen_interval(uint16_t(wifi_num(op[1]))); return true; }
+            if (two && n == "current_ap" && wifi_hex(op[1], 6, b)) { t.current_ap(HWAddress<6>(b.data())); return true; }
+            return dot11_cap_apply(t, op);
+        }
+        case PDU::DOT11_ASSOC_RESP: {
+            Dot11AssocResponse& t = static_cast<Dot11AssocResponse&>(d);
+            if (two && n == "status_code") { t.status_code(uint16_t(wifi_num(op[1]))); return true; }
+            if (two && n == "aid") { t.aid(uint16_t(wifi_num(op[1]))); return true; }
+            return dot11_cap_apply(t, op);
+        }
+        case PDU::DOT11_REASSOC_RESP: {
+            Dot11ReAssocResponse& t = static_cast<Dot11ReAssocResponse&>(d);
+            if (two && n == "status_code") { t.status_code(uint16_t(wifi_num(op[1]))); return true; }
+            if (two && n == "aid") { t.aid(uint16_t(wifi_num(op[1]))); return true; }
+            return dot11_cap_apply(t, op);
+        }
+        case PDU::DOT11_AUTH: {
+            Dot11Authentication& t = static_cast<Dot11Authentication&>(d);
+            if (two && n == "auth_algorithm") { t.auth_algorithm(uint16_t(wifi_num(op[1]))); return true; }
+            if (two && n == "auth_seq_number") { t.auth_seq_number(uint16_t(wifi_num(op[1]))); return true; }
+            if (two && n == "status_code") { t.status_code(uint16_t(wifi_num(op[1]))); return true; }
+            return false;
+        }
+        case PDU::DOT11_BLOCK_ACK_REQ:
+            return dot11_bar_apply(static_cast<Dot11BlockAckRequest&>(d), op);
+        case PDU::DOT11_BLOCK_ACK: {
+            Dot11BlockAck& t = static_cast<Dot11BlockAck&>(d);
+            if (two && n == "bitmap" && wifi_hex(op[1], 8, b)) { t.bitmap(b.data()); return true; }
+            return dot11_bar_apply(t, op);
+        }
+        default:
+            return false;
+    }
+}
+
+// the text a typed getter must return after its setter was called with the op's arguments
+inline bool wifi_expected(const std::vector<std::string>& op, std::string& name, std::string& text) {
+    if (op.empty()) return false;
+    name = op[0];
+    if (name == "edca_parameter_set" || name == "add_option" || name == "remove_option") return false;   // no getter
+    text.clear();
+    for (size_t i = 1; i < op.size(); ++i) {
+        std::string a = op[i];
+        for (size_t k = 0; k < a.size(); ++k) {
+            if (name == "rsn_information" && (i == 3 || i == 4)) { if (a[k] == ',') a[k] = '+'; }
+            else if (a[k] == ':') a[k] = '.';
+        }
+        if (i > 1) text += "_";
+        text += a;
+    }
+    return true;
+}
+inline std::string wifi_typed_find(const std::string& typed, const std::string& name) {
+    size_t pos = 0;
+    while (pos <= typed.size()) {
+        size_t end = typed.find('|', pos);
+        std::string item = typed.substr(pos, end == std::string::npos ? std::string::npos : end - pos);
+        if (item.compare(0, name.size() + 1, name + ":") == 0) return item;
+        if (end == std::string::npos) break;
+        pos = end + 1;
+    }
+    return "";
+}
+
+inline bool wifi_is_dot11(const PDU& p) {
+    return p.matches_flag(PDU::DOT11);
+}
+
+inline bool wifi_apply(PDU& p, const std::vector<std::string>& op) {
+    if (op.empty()) return false;
+    bytes b;
+    const std::string& n = op[0];
+    if (p.pdu_type() == PDU::RC4EAPOL || p.pdu_type() == PDU::RSNEAPOL) {
+        if (op.size() != 2) return false;
+        EAPOL& e = static_cast<EAPOL&>(p);
+        if (n == "version") { e.version(uint8_t(wifi_num(op[1]))); return true; }
+        if (n == "packet_type") { e.packet_type(uint8_t(wifi_num(op[1]))); return true; }
+        if (n == "length") { e.length(uint16_t(wifi_num(op[1]))); return true; }
+        if (n == "type") { e.type(uint8_t(wifi_num(op[1]))); return true; }
+        if (p.pdu_type() == PDU::RC4EAPOL) {
+            RC4EAPOL& r = static_cast<RC4EAPOL&>(p);
+            if (n == "key" && vh::parse_hex(op[1], b)) { r.key(b); return true; }
+            if (n == "key_length") { r.key_length(uint16_t(wifi_num(op[1]))); return true; }
+            if (n == "replay_counter") { r.replay_counter(std::stoull(op[1])); return true; }
+            if (n == "key_iv" && wifi_hex(op[1], 16, b)) { r.key_iv(b.data()); return true; }
+            if (n == "key_flag") { r.key_flag(small_uint<1>(uint8_t(wifi_num(op[1])))); return true; }
+            if (n == "key_index") { r.key_index(small_uint<7>(uint8_t(wifi_num(op[1])))); return true; }
+            if (n == "key_sign" && wifi_hex(op[1], 16, b)) { r.key_sign(b.data()); return true; }
+            return false;
+        }
+        RSNEAPOL& r = static_cast<RSNEAPOL&>(p);
+        if (n == "key" && vh::parse_hex(op[1], b)) { r.key(b); return true; }
+#define BIT(NAME, W) if (n == #NAME) { r.NAME(small_uint<W>(uint8_t(wifi_num(op[1])))); return true; }
+        BIT(key_mic, 1) BIT(secure, 1) BIT(error, 1) BIT(request, 1) BIT(encrypted, 1) BIT(key_descriptor, 3) BIT(key_t, 1)
+        BIT(key_index, 2) BIT(install, 1) BIT(key_ack, 1)
+#undef BIT
+        if (n == "key_length") { r.key_length(uint16_t(wifi_num(op[1]))); return true; }
+        if (n == "replay_counter") { r.replay_counter(std::stoull(op[1])); return true; }
+        if (n == "nonce" && wifi_hex(op[1], 32, b)) { r.nonce(b.data()); return true; }
+        if (n == "key_iv" && wifi_hex(op[1], 16, b)) { r.key_iv(b.data()); return true; }
+        if (n == "rsc" && wifi_hex(op[1], 8, b)) { r.rsc(b.data()); return true; }
+        if (n == "id" && wifi_hex(op[1], 8, b)) { r.id(b.data()); return true; }
+        if (n == "mic" && wifi_hex(op[1], 16, b)) { r.mic(b.data()); return true; }
+        if (n == "wpa_length") { r.wpa_length(uint16_t(wifi_num(op[1]))); return true; }
+        return false;
+    }
+    if (!wifi_is_dot11(p)) return false;
+    Dot11& d = static_cast<Dot11&>(p);
+    if (op.size() == 2) {
+#define FLAG(NAME, W) if (n == #NAME) { d.NAME(small_uint<W>(uint8_t(wifi_num(op[1])))); return true; }
+        FLAG(protocol, 2) FLAG(type, 2) FLAG(subtype, 4) FLAG(to_ds, 1) FLAG(from_ds, 1) FLAG(more_frag, 1) FLAG(retry, 1)
+        FLAG(power_mgmt, 1) FLAG(more_data, 1) FLAG(wep, 1) FLAG(order, 1)
+#undef FLAG
+        if (n == "duration_id") { d.duration_id(uint16_t(wifi_num(op[1]))); return true; }
+        if (n == "addr1" && wifi_hex(op[1], 6, b)) { d.addr1(HWAddress<6>(b.data())); return true; }
+        if (n == "target_addr" && wifi_hex(op[1], 6, b)) {
+            Dot11ControlTA* t = dynamic_cast<Dot11ControlTA*>(&d);
+            if (!t) return false;
+            t->target_addr(HWAddress<6>(b.data()));
+            return true;
+        }
+        if (n == "remove_option") { d.remove_option(Dot11::OptionTypes(uint8_t(wifi_num(op[1])))); return true; }
+    }
+    if (Dot11ManagementFrame* m = dynamic_cast<Dot11ManagementFrame*>(&d)) {
+        if (dot11_ext_apply(*m, op)) return true;
+    }
+    else if (Dot11Data* t = dynamic_cast<Dot11Data*>(&d)) {
+        if (dot11_ext_apply(*t, op)) return true;
+    }
+    if (dot11_body_apply(d, op)) return true;
+    if (n == "add_option" && op.size() == 4 && vh::parse_hex(op[3], b)) {
+        d.add_option(Dot11::option(uint8_t(wifi_num(op[1])), uint16_t(wifi_num(op[2])), b.begin(), b.end()));
+        return true;
+    }
+    if (Dot11ManagementFrame* m = dynamic_cast<Dot11ManagementFrame*>(&d)) {
+        // implementation-side C04 oracle: a typed setter called with a representable argument on a frame that has no
+        // such option yet must be read back by its getter as exactly that argument ("getters reflect the edits")
+        std::string name, want;
+        bool check = wifi_expected(op, name, want);
+        std::vector<uint8_t> before;
+        for (Dot11::options_type::const_iterator it = m->options().begin(); it != m->options().end(); ++it) before.push_back(it->option());
+        if (!dot11_typed_apply(*m, op)) return false;
+        // "first matching option": the getter sees the new option only if no option of its code was there before
+        if (check && !m->options().empty()) {
+            uint8_t code = m->options().back().option();
+            for (size_t i = 0; i < before.size(); ++i) if (before[i] == code) check = false;
+        }
+        if (check) {
+            std::string got = wifi_typed_find(wifi_typed(*m), name);
+            if (got != name + ":" + want) throw std::runtime_error("codec-mismatch " + name + " want " + want + " got " + got);
+        }
+        return true;
+    }
+    return false;
+}
+
+// read-only accessor sweep (C01): every typed getter / decoder that can fail
+inline bool wifi_sweep(const PDU& p, std::string& out) {
+    if (p.pdu_type() == PDU::RADIOTAP) {
+        const RadioTap& r = static_cast<const RadioTap&>(p);
+        sweep_item(out, "rt.present", [&] { r.present(); });
+        sweep_item(out, "rt.tsft", [&] { r.tsft(); });
+        sweep_item(out, "rt.flags", [&] { r.flags(); });
+        sweep_item(out, "rt.rate", [&] { r.rate(); });
+        sweep_item(out, "rt.channel_freq", [&] { r.channel_freq(); });
+        sweep_item(out, "rt.channel_type", [&] { r.channel_type(); });
+        sweep_item(out, "rt.dbm_signal", [&] { r.dbm_signal(); });
+        sweep_item(out, "rt.dbm_noise", [&] { r.dbm_noise(); });
+        sweep_item(out, "rt.signal_quality", [&] { r.signal_quality(); });
+        sweep_item(out, "rt.antenna", [&] { r.antenna(); });
+        sweep_item(out, "rt.db_signal", [&] { r.db_signal(); });
+        sweep_item(out, "rt.xchannel", [&] { r.xchannel(); });
+        sweep_item(out, "rt.data_retries", [&] { r.data_retries(); });
+        sweep_item(out, "rt.rx_flags", [&] { r.rx_flags(); });
+        sweep_item(out, "rt.tx_flags", [&] { r.tx_flags(); });
+        sweep_item(out, "rt.mcs", [&] { r.mcs(); });
+        return true;
+    }
+    if (!wifi_is_dot11(p)) return false;
+    const Dot11ManagementFrame* m = dynamic_cast<const Dot11ManagementFrame*>(&p);
+    if (!m) return false;
+    sweep_item(out, "rsn_information", [&] { m->rsn_information(); });
+    sweep_item(out, "ssid", [&] { m->ssid(); });
+    sweep_item(out, "supported_rates", [&] { m->supported_rates(); });
+    sweep_item(out, "extended_supported_rates", [&] { m->extended_supported_rates(); });
+    sweep_item(out, "qos_capability", [&] { m->qos_capability(); });
+    sweep_item(out, "power_capability", [&] { m->power_capability(); });
+    sweep_item(out, "supported_channels", [&] { m->supported_channels(); });
+    sweep_item(out, "request_information", [&] { m->request_information(); });
+    sweep_item(out, "fh_parameter_set", [&] { m->fh_parameter_set(); });
+    sweep_item(out, "ds_parameter_set", [&] { m->ds_parameter_set(); });
+    sweep_item(out, "cf_parameter_set", [&] { m->cf_parameter_set(); });
+    sweep_item(out, "ibss_parameter_set", [&] { m->ibss_parameter_set(); });
+    sweep_item(out, "ibss_dfs", [&] { m->ibss_dfs(); });
+    sweep_item(out, "country", [&] { m->country(); });
+    sweep_item(out, "fh_parameters", [&] { m->fh_parameters(); });
+    sweep_item(out, "fh_pattern_table", [&] { m->fh_pattern_table(); });
+    sweep_item(out, "power_constraint", [&] { m->power_constraint(); });
+    sweep_item(out, "channel_switch", [&] { m->channel_switch(); });
+    sweep_item(out, "quiet", [&] { m->quiet(); });
+    sweep_item(out, "tpc_report", [&] { m->tpc_report(); });
+    sweep_item(out, "erp_information", [&] { m->erp_information(); });
+    sweep_item(out, "bss_load", [&] { m->bss_load(); });
+    sweep_item(out, "tim", [&] { m->tim(); });
+    sweep_item(out, "challenge_text", [&] { m->challenge_text(); });
+    sweep_item(out, "vendor_specific", [&] { m->vendor_specific(); });
+    // every decoder on every option present (a decoder applied to an option of another type must still be safe)
+    size_t idx = 0;
+    for (Dot11::options_type::const_iterator it = m->options().begin(); it != m->options().end() && idx < 4; ++it, ++idx) {
+        const Dot11::option& o = *it;
+        sweep_item(out, "opt.rsn", [&] { RSNInformation::from_option(o); });
+        sweep_item(out, "opt.u8", [&] { o.to<uint8_t>(); });
+        sweep_item(out, "opt.u16", [&] { o.to<uint16_t>(); });
+        sweep_item(out, "opt.pair", [&] { o.to<std::pair<uint8_t, uint8_t> >(); });
+        sweep_item(out, "opt.pairs", [&] { o.to<std::vector<std::pair<uint8_t, uint8_t> > >(); });
+        sweep_item(out, "opt.rates", [&] { o.to<std::vector<float> >(); });
+        sweep_item(out, "opt.fh", [&] { o.to<Dot11ManagementFrame::fh_params_set>(); });
+        sweep_item(out, "opt.cf", [&] { o.to<Dot11ManagementFrame::cf_params_set>(); });
+        sweep_item(out, "opt.dfs", [&] { o.to<Dot11ManagementFrame::ibss_dfs_params>(); });
+        sweep_item(out, "opt.country", [&] { o.to<Dot11ManagementFrame::country_params>(); });
+        sweep_item(out, "opt.fhp", [&] { o.to<Dot11ManagementFrame::fh_pattern_type>(); });
+        sweep_item(out, "opt.cs", [&] { o.to<Dot11ManagementFrame::channel_switch_type>(); });
+        sweep_item(out, "opt.quiet", [&] { o.to<Dot11ManagementFrame::quiet_type>(); });
+        sweep_item(out, "opt.bss", [&] { o.to<Dot11ManagementFrame::bss_load_type>(); });
+        sweep_item(out, "opt.tim", [&] { o.to<Dot11ManagementFrame::tim_type>(); });
+    }
+    return true;
+}
+
 } // namespace wire
